@@ -1508,12 +1508,14 @@ esl_buffer_Read(ESL_BUFFER *bf, size_t nbytes, void *p)
 {
   int status;
 
-  if (bf->n - bf->pos < nbytes)
+  while (bf->n - bf->pos < nbytes)  /* buffer_refill() loads one page per call: keep going until <nbytes> are in the window */
     {
-      status = buffer_refill(bf, nbytes + bf->pagesize);
-      if       (status == eslEOF)       return eslEOF;
-      else if  (status != eslOK)        return status; /* EMEM, ESYS, EINCONCEIVABLE */
-      else if  (bf->n-bf->pos < nbytes) return eslEOF;
+      esl_pos_t navail = bf->n - bf->pos;
+
+      status = buffer_refill(bf, nbytes);
+      if       (status == eslEOF)            return eslEOF;
+      else if  (status != eslOK)             return status; /* EMEM, ESYS, EINCONCEIVABLE */
+      else if  (bf->n - bf->pos == navail)   return eslEOF; /* nothing more to load: input ends before <nbytes> */
     }
 
   memcpy(p, bf->mem+bf->pos, nbytes);
